@@ -721,6 +721,13 @@ class Frame:
         ev = self.ev
         base = self.eval(e.value, st)
         attr = e.attr
+        if attr == "__dataclass_fields__":
+            c = ev.types.get(base)
+            if c is None and base[0] == "ref":
+                c = self._lookup_ident(base[1])
+                c = c if isinstance(c, ClassInfo) else None
+            if c is not None and c.fields():
+                return ("d", tuple((T.K(f.name), ("fld", c.ident, f.name, bool(f.init))) for f in c.fields()))
         if base[0] == "ref":
             tgt = self._resolve_ref_attr(base[1], attr)
             if tgt is not None:
